@@ -282,21 +282,37 @@ def inversion_records(inst, dmode):
     recs = []
     ds, objs, skw = ic.build(inst)
     # the documented meaning of the forced-zero set: boundary cells of every rectangular mesh, in parameter order
-    off, edge = 0, []
+    # ... and, with force_edge_image_pixels_to_zeros, additionally every mesh cell of a MAPPER that receives a sub-pixel of one of
+    # the image pixels listed in image_pixels_source_zero (parameters of other linear objects are never forced)
+    zimg = sorted(set(int(x) for x in rng.choice(n, size=max(1, n // 3), replace=False)))
+    off, edge, imgz = 0, [], []
     for o in inst["objs"]:
         if o["type"] == "mapper":
             my, mx = o["mesh"]
             edge += [off + a * mx + c for a in range(my) for c in range(mx) if a in (0, my - 1) or c in (0, mx - 1)]
+            q = 0
+            for k_, sk in enumerate(ic.sub_list(o, n)):
+                if k_ in zimg:
+                    imgz += [off + int(c) for c in o["cells"][q : q + sk * sk]]
+                q += sk * sk
             off += my * mx
         else:
             off += len(o["M"][0])
+    forced_of = {True: edge, "image": sorted(set(edge) | set(imgz))}
+    # (a forced set that covers every parameter leaves an empty reduced system, which the library refuses to solve: outside
+    #  the family - the image-pixel mode is then skipped for this instance)
+    image_mode_ok = len(forced_of["image"]) < off
     for pos in (True, False):
         for warm in ((True, False, None) if pos else (None,)):
-            for force in ((True, False) if pos else (False,)):
+            for force in ((True, "image", False) if pos else (False,)):
+                if force == "image" and not image_mode_ok:
+                    continue
                 for use_w in (False, True):
                     variant = f"inversion:pos={pos}:warm={warm}:force_edge={force}:w_tilde={use_w}"
                     st = aa.SettingsInversion(use_w_tilde=use_w, use_positive_only_solver=pos, positive_only_uses_p_initial=warm,
-                                              force_edge_pixels_to_zeros=force, **skw)
+                                              force_edge_pixels_to_zeros=bool(force), force_edge_image_pixels_to_zeros=(force == "image"),
+                                              image_pixels_source_zero=(list(zimg) if force == "image" else None), **skw)
+                    edge = forced_of.get(force, [])
                     try:
                         _, objs2, _ = ic.build(inst)
                         inv = aa.Inversion(dataset=ds, linear_obj_list=objs2, settings=st)
@@ -335,6 +351,53 @@ def inversion_records(inst, dmode):
                         recs.append({"p": "C05", "api": "mapped", "variant": variant, "raised": True, "spd": True, "err": f"{type(e).__name__}: {str(e)[:80]}",
                                      "objs": [], "total": [], "unc_has_nonpositive": False})
     return recs
+
+
+def smooth_inversion_records(seed):
+    """A strongly correlated system beyond the lattice family: a fine rectangular pixelization of zero-mean noise under a broad
+    Gaussian PSF (many zeros in the optimum, long active-set histories with exchange steps). Judged by the KKT clauses in fixed point."""
+    import autoarray as aa
+    from autoarray import exc
+
+    rng = np.random.default_rng(seed)
+    side = int(rng.choice([11, 13]))
+    mesh = int(rng.choice([6, 7, 8]))
+    sig = float(rng.choice([1.0, 1.5, 2.0]))
+    coeff = float(rng.choice([1e-3, 1e-2]))
+    mask = aa.Mask2D.circular(shape_native=(side, side), pixel_scales=1.0, radius=side / 2.0 - 1.0)
+    data = aa.Array2D.no_mask(values=rng.normal(0.0, 1.0, size=(side, side)) + float(rng.choice([-0.25, 0.0, 0.25])), pixel_scales=1.0)
+    noise = aa.Array2D.no_mask(values=np.full((side, side), 1.0), pixel_scales=1.0)
+    yy, xx = np.mgrid[-3:4, -3:4]
+    k = np.exp(-0.5 * (yy ** 2 + xx ** 2) / sig ** 2)
+    ds = aa.Imaging(data=data, noise_map=noise, psf=aa.Kernel2D.no_mask(values=k / k.sum(), pixel_scales=1.0),
+                    over_sampling=aa.OverSamplingDataset(uniform=aa.OverSamplingUniform(sub_size=1), pixelization=aa.OverSamplingUniform(sub_size=1))).apply_mask(mask=mask)
+    recs = []
+    for warm in (True, False):
+        osr = aa.OverSamplerUniform(mask=mask, sub_size=1)
+        grid = osr.over_sampled_grid
+        mg = aa.MapperGrids(mask=mask, source_plane_data_grid=grid, source_plane_mesh_grid=aa.Mesh2DRectangular.overlay_grid(grid=grid, shape_native=(mesh, mesh)))
+        mapper = aa.MapperRectangular(mapper_grids=mg, over_sampler=osr, border_relocator=None, regularization=aa.reg.Constant(coefficient=coeff))
+        variant = f"smooth-inversion:mesh={mesh}:sigma={sig}:warm={warm}"
+        inv = aa.Inversion(dataset=ds, linear_obj_list=[mapper], settings=aa.SettingsInversion(use_w_tilde=False, use_positive_only_solver=True,
+                                                                                              positive_only_uses_p_initial=warm, force_edge_pixels_to_zeros=False))
+        A = np.array(inv.curvature_reg_matrix, dtype=float).copy()
+        b = np.array(inv.data_vector, dtype=float).copy()
+        try:
+            sol = np.array(inv.reconstruction, dtype=float)
+            r = _system_record(A, b, sol, "nnls", variant)
+        except exc.InversionException:
+            r = _system_record(A, b, np.zeros(len(b)), "nnls", variant)
+            r["raised"], r["err"] = True, "InversionException"
+        r["_smooth_seed"] = int(seed)
+        recs.append(r)
+    return recs
+
+
+def _smooth_many(seeds):
+    out = []
+    for sd in seeds:
+        out.extend(smooth_inversion_records(sd))
+    return out
 
 
 def _inv_many(args):
@@ -432,6 +495,11 @@ def run(ctx):
     ctx.bounds["inversion_level_instances"] = n_inv
     for part in core.pmap(_inv_many, [invs[k : k + 2] for k in range(0, len(invs), 2)]):
         recs.extend(part)
+    n_smooth = 160 if quick else 3000
+    ctx.bounds["smooth_inversion_instances"] = n_smooth
+    sseeds = [int(x) for x in rng.integers(0, 2 ** 31 - 1, size=n_smooth)]
+    for part in core.pmap(_smooth_many, [sseeds[k : k + 5] for k in range(0, n_smooth, 5)]):
+        recs.extend(part)
     ctx.sample({"instance": small[len(small) // 2], "exact_optimum": opt[len(small) // 2 + 1]})
     ctx.sample({k: v for k, v in recs[-2].items()})
     validate(ctx, recs, "C05")
@@ -442,7 +510,9 @@ def run(ctx):
 
 def replay(ctx, rp):
     rec = rp["record"]
-    if rp.get("inversion"):
+    if "_smooth_seed" in rec:
+        recs = [r for r in smooth_inversion_records(rec["_smooth_seed"]) if r["variant"] == rec["variant"]]
+    elif rp.get("inversion"):
         recs = [r for r in _inv_many([(rp["inversion"]["instance"], rp["inversion"]["dmode"])]) if r["variant"] == rec["variant"] and r["api"] == rec["api"]]
     else:
         recs = [r for r in records_for({"A": rec["a"], "b": rec["beta"]}) if r["variant"] == rec["variant"]]
